@@ -382,12 +382,12 @@ fn part_b(run: &Run) {
 
     // the domain restriction, measured: tokens that begin with a keyword are read as operand + rest
     let mut observed = vec![];
-    for t in ["nulla", "truex", "falsey", "null", "true", "false"] {
+    for t in ["nulla", "truex", "falsey", "null", "true", "false", "d0", "d1"] {
         run.eval(1);
-        let r = roundtrip(&[op(t, vec![])]);
-        observed.push(json!({"token": t, "round_trips": r.is_none()}));
+        let r = roundtrip(&[op(t, vec![Object::Integer(1)])]);
+        observed.push(json!({"token": t, "round_trips_as_operator": r.is_none()}));
     }
-    run.set("keyword_prefix_tokens_observed", json!(observed));
+    run.set("out_of_domain_tokens_observed_not_demanded", json!(observed));
 }
 
 // ---------------------------------------------------------------------------------------------
